@@ -163,11 +163,9 @@ def check_resolver(ctx, fn, table_var, params, chain):
             texts = {q(c) for c in conj}
             exec_level_ok = f"'exec_type' in {r0}" in texts and texts <= {f"'exec_type' in {r0}", f"isinstance({r0}, dict)"}
     ok = bool(row_var and result_var and default_var and exec_level_ok)
-    ctx.instance(rule, "lookup", ok,
-                 "resolver no longer has the shape row=table.get(status, table[None]); optional exec_type level; "
-                 "result=row.get(msg_status, row[None])" if not ok else "",
-                 loc(fn), sample={"rule": rule, "row_var": row_var, "default_var": default_var,
-                                  "result_var": result_var, "exec_level": exec_level_ok})
+    if ok:
+        ctx.instance(rule, "lookup", ok, "", loc(fn), sample={"rule": rule, "row_var": row_var, "default_var": default_var,
+                                                            "result_var": result_var, "exec_level": exec_level_ok})
     if not ok:
         raise AnalysisError(f"{FN}: resolver lookup shape not recognised (row={row_var}, default={default_var}, "
                             f"result={result_var}, exec_level={exec_level_ok}); the folded table cannot stand for the function")
@@ -331,8 +329,18 @@ def run(ctx):
     exectypes = fold.enum_members("FExecType")
     if len(statuses) < 15 or len(exectypes) < 17:
         raise AnalysisError("status / exec type enums shrank")
-    tables, table_var, params, chain = fold_tables(ctx, fn, fold)
-    check_resolver(ctx, fn, table_var, params, chain)
+    evaluator = None
+    n_before = len(ctx.findings)
+    try:
+        tables, table_var, params, chain = fold_tables(ctx, fn, fold)
+        check_resolver(ctx, fn, table_var, params, chain)
+    except AnalysisError as exc:
+        # the function is not "literal tables + the canonical lookup": fold tables and lookup code together instead, by evaluating the
+        # function's own statements for every argument tuple of the finite domain (E10, sa/minieval.py)
+        if len(ctx.findings) != n_before:
+            raise
+        evaluator = _Evaluated(ctx, repo, fold, fn, statuses, exectypes, str(exc))
+        return run_evaluated(ctx, repo, fold, fn, statuses, exectypes, evaluator)
     for k in REPORT_KINDS + REQUEST_KINDS:
         if k not in tables:
             ctx.instance("C16.totality", f"kind[{k}]", False, f"supported message kind {k} has no table", loc(fn))
@@ -489,6 +497,10 @@ def run(ctx):
     ctx.extra["domain_points"] = points
     ctx.extra["exhaustive"] = True
 
+    wrappers_and_enums(ctx, repo, fold)
+
+
+def wrappers_and_enums(ctx, repo, fold):
     # wrappers
     for wname, kind in (("can_cancel", "ORDERCANCELREQUEST"), ("can_replace", "ORDERCANCELREPLACEREQUEST")):
         w = repo.func(f"FIXNewOrderSingle.{wname}")
@@ -559,3 +571,101 @@ def check_value_enum(ctx, repo, fold, base, members_of, rule):
         vals = list(mem.values())
         dups = sorted({v for v in vals if vals.count(v) > 1})
         ctx.instance(rule, f"{cls}:distinct-values", not dups, f"{cls} members share values {dups}", loc(repo.cls(cls)))
+
+
+# ---------------------------------------------------------------------------------------------- evaluated mode (E10)
+class _Evaluated:
+    def __init__(self, ctx, repo, fold, fn, statuses, exectypes, why):
+        from sa.minieval import EV, MiniEval
+        self.EV = EV
+        self.me = MiniEval(repo, fold, "FIXNewOrderSingle")
+        self.fn = fn
+        params = [a.arg for a in fn.args.args]
+        if params and params[0] in ("self", "cls"):
+            params = params[1:]
+        if len(params) < 4:
+            raise AnalysisError(f"{FN}: parameters {params}")
+        self.params = params
+        self.statuses, self.exectypes = statuses, exectypes
+        self.kinds = fold.enum_members("FMsg")
+        self.why = why
+        self.cache = {}
+        self.points = 0
+
+    def outcome(self, kind, cur, ex, ms, roe=True):
+        """'transit' / 'ignore' / 'error' / 'raise:<Exc>' / 'other:<repr>'"""
+        key = (kind, cur, ex, ms, roe)
+        if key in self.cache:
+            return self.cache[key]
+        from sa.minieval import Raised, Unsupported
+        EV = self.EV
+        exv = next((EV("FExecType", n, v) for n, v in self.exectypes.items() if v == ex), ex)
+        msv = EV("FOrdStatus", ms, self.statuses[ms])
+        args = dict(zip(self.params, [EV("FOrdStatus", cur, self.statuses[cur]), EV("FMsg", kind, self.kinds[kind]), exv, msv, roe]))
+        self.points += 1
+        try:
+            k, v = self.me.call(self.fn, args)
+            if v is None:
+                r = I
+            elif v is msv:
+                r = T
+            else:
+                r = f"other:{v!r}"
+        except Raised as exc:
+            r = E if exc.name == "FIXError" else f"raise:{exc.name}"
+        except Unsupported as exc:
+            raise AnalysisError(f"{FN}: not a literal table with the canonical lookup ({self.why[:120]}) and not in the evaluated fragment either: {exc}")
+        self.cache[key] = r
+        return r
+
+
+def run_evaluated(ctx, repo, fold, fn, statuses, exectypes, ev):
+    ctx.assumptions += ["the transition function is folded by evaluating its statements over the whole finite domain (sa/minieval.py); enum members compare by value"]
+    ctx.instance("C16.resolver-shape", "lookup", True, "", loc(fn), sample={"rule": "C16.resolver-shape", "mode": "evaluated", "why": ev.why[:200]})
+    exec_domain = [v for v in exectypes.values()] + [0]
+    where = loc(fn)
+    # totality: every point of every supported kind ends in transit / ignore / error (FIXError), nothing else escapes
+    for kind in REPORT_KINDS + REQUEST_KINDS:
+        bad = [(c, m, ev.outcome(kind, c, ex, m)) for c in statuses for m in statuses for ex in exec_domain if ev.outcome(kind, c, ex, m) not in (T, I, E)]
+        ctx.instance("C16.totality", f"{kind}:domain", not bad, f"the transition function ends in {bad[:3]} (neither a status, None nor FIXError)", where,
+                     evals=len(statuses) ** 2 * len(exec_domain))
+    other = next((k for k in ev.kinds if k not in REPORT_KINDS + REQUEST_KINDS), None)
+    if other is not None:
+        got = {ev.outcome(other, c, 0, m) for c in list(statuses)[:4] for m in list(statuses)[:4]}
+        ctx.instance("C16.totality", "unsupported-kind", got == {E}, f"an unsupported message kind ends in {sorted(got)}, not in the library's order error", where)
+    # outcome mapping with raise_on_err=False: error -> None, the rest unchanged
+    for v in (T, I, E):
+        ok = True
+        for kind in REPORT_KINDS + REQUEST_KINDS:
+            for c in statuses:
+                for m in statuses:
+                    for ex in (0, exec_domain[0]):
+                        if ev.outcome(kind, c, ex, m) == v:
+                            want = T if v == T else I
+                            if ev.outcome(kind, c, ex, m, roe=False) != want:
+                                ok = False
+        ctx.instance("C16.resolver-outcome", f"verdict={v},raise_on_err=False", ok,
+                     f"with raise_on_err=False a {v} cell does not end in {'the reported status' if v == T else 'None'}", where)
+    ack = [s_ for s_ in statuses if s_ not in ("CREATED", "PENDING_NEW")]
+    for kind in REPORT_KINDS:
+        for cur in FINISHED:
+            bad = sorted({ms for ms in statuses for ex in exec_domain if ms != cur and ev.outcome(kind, cur, ex, ms) == T})
+            ctx.instance("C16.absorbing", f"{kind}[{cur}]", not bad, f"finished status {cur} transits to {bad} on a {kind}", where, evals=len(statuses) * len(exec_domain))
+        for cur in statuses:
+            bad = any(ev.outcome(kind, cur, ex, "CREATED") == T for ex in exec_domain)
+            ctx.instance("C16.no-way-back", f"{kind}[{cur}->CREATED]", not bad, f"a {kind} moves an order from {cur} back to CREATED", where, evals=len(exec_domain))
+        for cur in ack:
+            bad = any(ev.outcome(kind, cur, ex, "PENDING_NEW") == T for ex in exec_domain)
+            ctx.instance("C16.no-way-back", f"{kind}[{cur}->PENDING_NEW]", not bad, f"a {kind} moves an acknowledged order ({cur}) back to PENDING_NEW", where, evals=len(exec_domain))
+        bad = sorted({ms for ms in statuses for ex in exec_domain if ms not in ("PENDING_NEW", "REJECTED") and ev.outcome(kind, "CREATED", ex, ms) == T})
+        ctx.instance("C16.created", f"{kind}[CREATED]", not bad, f"a just-created order accepts {bad} from a {kind}", where, evals=len(statuses) * len(exec_domain))
+    for kind in REQUEST_KINDS:
+        for cur in statuses:
+            want = T if cur in ("NEW", "PARTIALLY_FILLED", "SUSPENDED") else I if cur in ("PENDING_CANCEL", "PENDING_REPLACE") else E
+            got = {ev.outcome(kind, cur, ex, ms) for ms in statuses for ex in exec_domain}
+            ctx.instance("C16.request-permission", f"{kind}[{cur}]", got == {want}, f"request gate for {cur} answers {sorted(map(str, got))}, expected {want}", where,
+                         evals=len(statuses) * len(exec_domain))
+    ctx.extra["domain_points"] = ev.points
+    ctx.extra["exhaustive"] = True
+    ctx.extra["mode"] = "evaluated"
+    wrappers_and_enums(ctx, repo, fold)
